@@ -58,7 +58,14 @@ type Engine struct {
 	loadTime  time.Duration
 }
 
-const repoDir = "/repo"
+// repoDir is the tree under verification: /repo, unless the development tools point the
+// engine at a scratch copy (SYMGO_REPO) to evaluate a seeded change without touching /repo.
+var repoDir = func() string {
+	if d := os.Getenv("SYMGO_REPO"); d != "" {
+		return d
+	}
+	return "/repo"
+}()
 const repoModule = "gopkg.in/typ.v4"
 
 // LoadEngine loads package dir pkgRel of /repo with the given overlay files injected.
@@ -257,6 +264,7 @@ type Explorer struct {
 	errs     []string
 	samples  []map[string]interface{}
 	qFeas    int64
+	qOrder   int64
 	qVC      int64
 	vcRew    int64
 	vcSol    int64
@@ -315,6 +323,7 @@ func (ex *Explorer) record(r *Run) {
 		ex.maxDecs = len(r.log)
 	}
 	ex.qFeas += int64(r.qFeas)
+	ex.qOrder += int64(r.qOrder)
 	ex.qVC += int64(r.qVC)
 	ex.vcRew += int64(r.vcRewrite)
 	ex.vcSol += int64(r.vcSolver)
